@@ -809,6 +809,26 @@ theorem areaLen_take (v6 : Bool) (n : Nat) (rest : Bytes) (h : n < (if v6 then 4
   · simp only [if_true] at h
     exact ⟨take_append' _ _ _ (beBytes_length _ _), beNat_be32 n h⟩
 
+theorem areaParseCanon_some {emb : Bytes → Option Bytes} {raw : Bytes} {hs : List Subpacket}
+    (h : areaParseCanon emb raw = some hs) : areaParse emb (raw.length + 1) raw = some hs ∧ areaSer hs = some raw := by
+  unfold areaParseCanon at h
+  cases hp : areaParse emb (raw.length + 1) raw with
+  | none => simp [hp] at h
+  | some x =>
+    simp only [hp] at h
+    by_cases hc : areaSer x = some raw
+    · rw [if_pos hc] at h
+      cases h
+      exact ⟨rfl, hc⟩
+    · rw [if_neg hc] at h
+      cases h
+
+theorem areaParseCanon_of {emb : Bytes → Option Bytes} {raw : Bytes} {hs : List Subpacket}
+    (hp : areaParse emb (raw.length + 1) raw = some hs) (hc : areaSer hs = some raw) :
+    areaParseCanon emb raw = some hs := by
+  unfold areaParseCanon
+  simp [hp, hc]
+
 theorem sig_len (emb : Bytes → Option Bytes) (s : Sig) (b : Bytes) (hw : SigWF emb s) (hs : sigSer s = some b) :
     b.length = sigWriteLen s := by
   cases s with
@@ -861,6 +881,7 @@ theorem sig_parse_ser (emb : Bytes → Option Bytes) (s : Sig) (b : Bytes) (hw :
         have l2 := area_len emb unhashed u hu hu'
         have p1 := area_parse_ser emb hashed h (h.length + 1) hh hh' (by have := area_length_ge hashed h hh'; omega)
         have p2 := area_parse_ser emb unhashed u (u.length + 1) hu hu' (by have := area_length_ge unhashed u hu'; omega)
+        have pc1 := areaParseCanon_of p1 hh'
         cases v6
         · simp only [Bool.false_eq_true, if_false] at hv
           obtain ⟨rfl, b1, b2⟩ := hv
@@ -871,7 +892,7 @@ theorem sig_parse_ser (emb : Bytes → Option Bytes) (s : Sig) (b : Bytes) (hw :
           have hv4 : ((4 : UInt8).toNat = 2 ∨ (4 : UInt8).toNat = 3) = False := by decide
           simp only [sigParse, u8, hv4, if_false,
             show ((4 : UInt8).toNat = 4 ∨ (4 : UInt8).toNat = 6) = True by decide, if_true,
-            show decide ((4 : UInt8).toNat = 6) = false by decide, ← l1, ← l2, t1, n1, take_append, p1, t2, n2, p2,
+            show decide ((4 : UInt8).toNat = 6) = false by decide, ← l1, ← l2, t1, n1, take_append, pc1, t2, n2, p2,
             take_append' 2 left _ hl, Bool.false_eq_true, sigBytes_parse_ser pk sb hsb]
         · simp only [if_true] at hv
           obtain ⟨hsalt, b1, b2⟩ := hv
@@ -883,7 +904,7 @@ theorem sig_parse_ser (emb : Bytes → Option Bytes) (s : Sig) (b : Bytes) (hw :
           have hv6 : ((6 : UInt8).toNat = 2 ∨ (6 : UInt8).toNat = 3) = False := by decide
           simp only [sigParse, u8, hv6, if_false,
             show ((6 : UInt8).toNat = 4 ∨ (6 : UInt8).toNat = 6) = True by decide, if_true,
-            show decide ((6 : UInt8).toNat = 6) = true by decide, ← l1, ← l2, t1, n1, take_append, p1, t2, n2, p2,
+            show decide ((6 : UInt8).toNat = 6) = true by decide, ← l1, ← l2, t1, n1, take_append, pc1, t2, n2, p2,
             take_append' 2 left _ hl, hsl, hsalt, sigBytes_parse_ser pk sb hsb]
 
 /-! ## keys -/
@@ -1766,7 +1787,8 @@ theorem sig_parse_wf (emb : Bytes → Option Bytes) (hemb : ∀ x y, emb x = som
             · rename_i harea r3 hha
               split at h
               · simp at h
-              · rename_i hashed hhp
+              · rename_i hashed hhpc
+                have hhp := (areaParseCanon_some hhpc).1
                 split at h
                 · simp at h
                 · rename_i ul r4 hul
@@ -1821,6 +1843,88 @@ theorem sig_parse_wf (emb : Bytes → Option Bytes) (hemb : ∀ x y, emb x = som
         simp at h; subst h
         simp only [SigWF]
         omega
+
+/-- the parsed hashed area writes back to exactly the octets that were read -/
+theorem sig_parse_hashed_canonical (emb : Bytes → Option Bytes) (b : Bytes) (v6 : Bool) (typ pk hash : Byte)
+    (hashed unhashed : List Subpacket) (left salt : Bytes) (sb : SigBytes)
+    (h : sigParse emb b = some (.v4 v6 typ pk hash hashed unhashed left salt sb)) :
+    areaSer hashed = some (rawHashedArea b) := by
+  unfold sigParse at h
+  split at h
+  · simp at h
+  · rename_i v r hu8
+    split at h
+    · -- v2 / v3: never a `.v4`
+      split at h
+      · split at h
+        · simp at h
+        · split at h
+          · simp at h
+          · split at h
+            · simp at h
+            · split at h
+              · split at h
+                · simp at h
+                · simp at h
+              · simp at h
+      · simp at h
+    · split at h
+      · rename_i hnv3 hv
+        split at h
+        · rename_i typ' pk' hash' r1
+          dsimp only at h
+          have hb : b = v :: typ' :: pk' :: hash' :: r1 := by
+            cases b with
+            | nil => simp [u8] at hu8
+            | cons x t => simp [u8] at hu8; obtain ⟨rfl, rfl⟩ := hu8; rfl
+          have hw : areaLenOctets (decide (v.toNat = 6)) = (if v.toNat = 6 then 4 else 2) := by
+            by_cases h6 : v.toNat = 6 <;> simp [areaLenOctets, h6]
+          generalize hg : decide (v.toNat = 6) = v6' at h hw
+          split at h
+          · simp at h
+          · rename_i hl r2 hhl
+            split at h
+            · simp at h
+            · rename_i harea r3 hha
+              split at h
+              · simp at h
+              · rename_i hashed' hhpc
+                have hc := (areaParseCanon_some hhpc).2
+                have e1 := take_eq_some hhl
+                have e2 := take_eq_some hha
+                have hraw : rawHashedArea b = harea := by
+                  rw [hb]
+                  simp only [rawHashedArea]
+                  rw [← hw, e1.1, ← e1.2, List.take_left' rfl, List.drop_left' rfl, e2.1, ← e2.2, List.take_left' rfl]
+                split at h
+                · simp at h
+                · split at h
+                  · simp at h
+                  · split at h
+                    · simp at h
+                    · split at h
+                      · simp at h
+                      · cases v6'
+                        · simp only [Bool.false_eq_true, if_false] at h
+                          split at h
+                          · simp at h
+                            obtain ⟨_, _, _, _, rfl, _⟩ := h
+                            rw [hraw]; exact hc
+                          · simp at h
+                        · simp only [if_true] at h
+                          split at h
+                          · simp at h
+                          · split at h
+                            · simp at h
+                            · split at h
+                              · split at h
+                                · simp at h
+                                  obtain ⟨_, _, _, _, rfl, _⟩ := h
+                                  rw [hraw]; exact hc
+                                · simp at h
+                              · simp at h
+        · simp at h
+      · simp at h
 
 theorem sub_ser_some (emb : Bytes → Option Bytes) (s : Subpacket) (h : SubWF emb s) : ∃ b, subSer s = some b := by
   obtain ⟨_, hl, _, _, hd⟩ := h
